@@ -106,6 +106,11 @@ def run_c20(tape, r, tier, sandbox):
         tag_extra = ['--ignore-tags', 'meta,object,applet']
     if tag_extra:
         r.probes['tag_options'] += 1
+    with_sitemaps = tape.chance(1, 6, 'opt.sitemaps')
+    if with_sitemaps:
+        # --sitemaps queues /robots.txt and /sitemap.xml of every start URL's origin as ordinary URLs
+        tag_extra = tag_extra + ['--sitemaps']
+        r.probes['sitemaps_option'] += 1
     argv = crawl.argv_for(opts, [s.url for s in starts], dbpath, extra=tag_extra)
 
     def setup(h, server, net):
@@ -183,8 +188,10 @@ def run_c20(tape, r, tier, sandbox):
             started = (e['rec'] or {}).get('item_start')
             # a fetch by an item that was already being processed when the file arrived is a concurrent first fetch: not judged
             if e['target'] == '/robots.txt' and acc is not None and started is not None and started > acc + 1e-9:
-                r.violate(P, 'robots-refetched', 'after-accepted', 'robots.txt of %r requested again at t=%.3f although it had been obtained at t=%.3f'
-                          % (o, e['t'], acc))
+                own_item = bool(e['rec']) and canon(e['rec']['url']).endswith('/robots.txt')
+                r.violate(P, 'robots-refetched', 'queued-as-sitemap-source' if (with_sitemaps and own_item) else 'after-accepted',
+                          'robots.txt of %r requested again at t=%.3f (item %s) although it had been obtained at t=%.3f'
+                          % (o, e['t'], e['rec'] and e['rec']['url'], acc))
             continue
         g = groups[o]
         if g is None:
@@ -216,7 +223,7 @@ def run_c20(tape, r, tier, sandbox):
     ref_rows, expected = crawl.reference_crawl(site, starts, opts, own, allow=allow)
     reqs = {}
     for e in server.log:
-        if not e.get('robots'):
+        if not e.get('robots') and not (with_sitemaps and e['target'] == '/sitemap.xml'):
             reqs.setdefault(canon(e['url']), []).append(e)
     followed = {t for rec in ref_rows.values() for t in rec.get('followed', [])}
     for res in site.order:
